@@ -454,6 +454,36 @@ def gen_layers():
                                   ("render", "p", None, []), out("c")], loader={"p": [("incr", "c"), out("c")]}))
 
 
+def gen_falsy_shadow():
+    """An inner binding hides the outer ones WHATEVER its value: nil, false, 0 and the empty string/array bound in an inner
+    scope (block scope, locals, an inner global layer, partial arguments) in front of a non-nil outer binding of the same name."""
+    lays = ("args", "matter", "tglobals", "eglobals")
+    falsy = (None, False, 0, "", [])
+    for v in falsy:
+        for i, inner_l in enumerate(lays):
+            for outer_l in lays[i + 1:]:
+                layers = {ly: {} for ly in lays}
+                layers[inner_l]["x"] = v
+                layers[outer_l]["x"] = "OUT"
+                yield (f"falsy-shadow:layers:{inner_l}>{outer_l}", L.mk_case(probes(), **layers))
+        if not isinstance(v, list):
+            # locals in front of globals, block scopes in front of locals, partial arguments in front of globals
+            yield ("falsy-shadow:assign", L.mk_case([assign("x", lit(v))] + probes(), args={"x": "OUT"}))
+            yield ("falsy-shadow:with", L.mk_case([assign("x", lit("LOC")), ("with", [("x", lit(v))], probes())] + probes(), eglobals={"x": "OUT"}))
+            yield ("falsy-shadow:include-arg", L.mk_case([assign("x", lit("LOC")), ("include", "p", None, [("x", lit(v))])] + probes(),
+                                                         loader={"p": probes()}, tglobals={"x": "OUT"}))
+            yield ("falsy-shadow:render-arg", L.mk_case([("render", "p", None, [("x", lit(v))])] + probes(), loader={"p": probes()}, args={"x": "OUT"}))
+            yield ("falsy-shadow:macro-arg", L.mk_case([("macro", "m", [("x", None), ("y", lit("d"))], probes()), ("call", "m", [("x", lit(v))])] + probes(),
+                                                       matter={"x": "OUT"}))
+    # loop variables: items that are nil / false / 0 / '' hide an assigned and a global variable of the same name
+    yield ("falsy-shadow:for", L.mk_case([assign("x", lit("LOC")), ("for", "x", ("ipath", P("its")), probes(), [])] + probes(),
+                                         args={"its": ["a", None, False, 0, "", "b"], "y": "OUT"}))
+    yield ("falsy-shadow:for-global", L.mk_case([("for", "y", ("ipath", P("its")), probes(), [])] + probes(),
+                                                eglobals={"its": [None, "a", False], "y": "OUT"}))
+    yield ("falsy-shadow:include-with", L.mk_case([("include", "p", (P("its"), "x"), [])] + probes(), loader={"p": probes()},
+                                                  args={"its": [None, "a", 0], "x": "OUT"}))
+
+
 def gen_interrupts(ck: Check):
     """Errors and interrupts inside nested blocks: the scopes are as before afterwards (observable in lax mode)."""
     rng = ck.rng
@@ -610,6 +640,8 @@ def run(ck: Check) -> None:  # noqa: PLR0912, PLR0915
         one(sig, case)
     for sig, case in gen_layers():
         one(sig, case, nontrivial=any(case[k] for k in ("args", "matter", "tglobals", "eglobals")) or "builtin" in sig or sig == "counters")
+    for sig, case in gen_falsy_shadow():
+        one(sig, case)
     for sig, case, pre0, pre1 in gen_interrupts(ck):
         s = one(sig, case)
         if case["mode"] == "lax":
